@@ -5,6 +5,7 @@ import (
 	"fmt"
 	"os"
 	"strconv"
+	"strings"
 
 	"codeberg.org/TauCeti/mangle-go/ast"
 	"codeberg.org/TauCeti/mangle-go/functional"
@@ -143,7 +144,10 @@ func cmdTerms(args []string) error {
 					}
 				}
 			}
-			// print -> parse -> evaluate
+			// print -> parse -> evaluate (C09 speaks of finite floats only: NaN and the infinities have no literal)
+			if k := mgjson.Key(mgjson.FromConst(c)); strings.Contains(k, `"NaN"`) || strings.Contains(k, `Inf"`) {
+				return
+			}
 			r := rt{vid: vid + 1, printed: c.String(), originalKey: mgjson.Key(mgjson.FromConst(c))}
 			term, perr := parse.BaseTerm(r.printed)
 			if perr != nil {
